@@ -39,7 +39,7 @@ def run_variant(args):
     try:
         dst = os.path.join(tmp, 'repo')
         shutil.copytree('/repo', dst, ignore=shutil.ignore_patterns(
-            '.git', '__pycache__', '*.pyc', 'doc', 'releasenotes',
+            '.git', '__pycache__', '*.pyc', 'releasenotes',
             '.stestr', '*.egg-info'))
         for edit in v['edits']:
             p = os.path.join(dst, edit[0])
